@@ -260,8 +260,11 @@ def _slow_design_matrix(x, knots, spline_degree):
     # those values to a very small, non-zero value; if spline_degree==0, it's fine
     if spline_degree > 0:
         small_float = np.finfo(float).tiny
-        basis[spline_degree, 0] = small_float
-        basis[-(spline_degree + 1), -1] = small_float
+        # only replace exact zeros so that values are kept if x is not sorted
+        if basis[spline_degree, 0] == 0:
+            basis[spline_degree, 0] = small_float
+        if basis[-(spline_degree + 1), -1] == 0:
+            basis[-(spline_degree + 1), -1] = small_float
 
     return csr_object(basis.T)
 
